@@ -6,6 +6,8 @@ from hypothesis import strategies as st
 from vlib import stacks as S
 from vlib.core import Case, Facet, Refused, Violation
 
+# thorough-tier budgets of every facet are multiplied by this factor (sized for ~5-8 min on 16 cores)
+THOROUGH_SCALE = 8
 LEVEL = "exploration"
 RULE = ("recursive stack specs (depth<=5) over recognisable token roots: KDSubset with arbitrary index lists (repeats, "
         "negatives, empty; list/ndarray/tensor), shipped subset wrappers, KDConcatDataset (1-3 parts, balanced or not), harness "
